@@ -169,6 +169,7 @@ def run_harness(run, tier, seed, res, only_case=None):
     per_case_to = run.get("timeout_per_case", 60)
     base_to = run.get("timeout_base", 120)
     restarts = 0
+    restart_keys = {}   # violation key -> number of process restarts it caused in this run
     retried_timeout = set()
     t_begin = time.time()
     while start < ncases:
@@ -266,6 +267,14 @@ def run_harness(run, tier, seed, res, only_case=None):
                 break
             start = c + 1
             restarts += 1
+            hk = next((e.get("key") for e in reversed(events) if e.get("ev") == "violation"), "?")
+            restart_keys[hk] = restart_keys.get(hk, 0) + 1
+            if restart_keys[hk] >= 6:
+                # the same fatal finding six times in one run: the verdict cannot change any more and every
+                # further occurrence costs a hang window plus a process restart - stop this run here
+                log("  %s: key %s ended the process %d times; skipping the remaining cases of this run" %
+                    (run_label(run), hk, restart_keys[hk]))
+                break
             continue
         # crash
         if inflight is None and rc != 0:
@@ -292,6 +301,11 @@ def run_harness(run, tier, seed, res, only_case=None):
             break
         start = c + 1
         restarts += 1
+        restart_keys[key] = restart_keys.get(key, 0) + 1
+        if restart_keys[key] >= 6:
+            log("  %s: key %s ended the process %d times; skipping the remaining cases of this run" %
+                (run_label(run), key, restart_keys[key]))
+            break
         if restarts > 200:
             res.inconclusive.append("%s: too many restarts" % run_label(run))
             return
